@@ -442,6 +442,59 @@ fn apply<H: HX>(o: &mut Opening<H>, m: &[&str]) -> bool {
             },
             _ => false,
         },
+        ["addnode", r, c] => match (p(r), p(c)) {
+            (Some(r), Some(c)) if r < o.nodes.len() && c >= 1 && c <= 70000 => {
+                let x = H::extra();
+                for _ in 0..c {
+                    o.nodes[r].push(x);
+                }
+                true
+            },
+            _ => false,
+        },
+        ["dropnode", r, c] => match (p(r), p(c)) {
+            (Some(r), Some(c)) if r < o.nodes.len() && c >= 1 && c <= o.nodes[r].len() => {
+                let l = o.nodes[r].len();
+                o.nodes[r].truncate(l - c);
+                true
+            },
+            _ => false,
+        },
+        ["addleaf", c] => match p(c) {
+            Some(c) if c >= 1 && c <= 70000 => {
+                let x = H::extra();
+                for _ in 0..c {
+                    o.leaves.push(x);
+                }
+                true
+            },
+            _ => false,
+        },
+        ["addidxn", c] => match p(c) {
+            Some(c) if c >= 1 && c <= 70000 => {
+                // surplus positions: unused in-range positions first, then out-of-range ones
+                let n = 1usize << (o.depth as usize).min(20);
+                let set: BTreeSet<usize> = o.idxs.iter().cloned().collect();
+                let mut cand = 0usize;
+                for _ in 0..c {
+                    while cand < n && set.contains(&cand) {
+                        cand += 1;
+                    }
+                    o.idxs.push(cand);
+                    cand += 1;
+                }
+                true
+            },
+            _ => false,
+        },
+        ["dropidxn", c] => match p(c) {
+            Some(c) if c >= 1 && c <= o.idxs.len() => {
+                let l = o.idxs.len();
+                o.idxs.truncate(l - c);
+                true
+            },
+            _ => false,
+        },
         ["droprow", r] => match p(r) {
             Some(r) if r < o.nodes.len() => {
                 o.nodes.remove(r);
@@ -504,6 +557,11 @@ fn apply<H: HX>(o: &mut Opening<H>, m: &[&str]) -> bool {
 }
 
 /// every mutation of a batch opening with the given shape (gen side)
+/// values around the widths of counters, length prefixes and casts
+const WIDTHS: [usize; 12] =
+    [255, 256, 257, 65535, 65536, 65537, (1 << 32) - 1, 1 << 32, (1 << 32) + 1, (1 << 63) - 1, 1 << 63, (1 << 63) + 1];
+const COUNTS: [usize; 10] = [2, 254, 255, 256, 257, 511, 512, 513, 65535, 65536];
+
 fn all_muts(idxs: &[usize], lens: &[usize], depth: usize, n: usize) -> Vec<String> {
     let mut v: Vec<String> = vec![];
     let k = idxs.len();
@@ -518,6 +576,7 @@ fn all_muts(idxs: &[usize], lens: &[usize], depth: usize, n: usize) -> Vec<Strin
     let set: BTreeSet<usize> = idxs.iter().cloned().collect();
     for i in 0..k {
         let mut cands: Vec<usize> = vec![idxs[i] ^ 1, (idxs[i] + 2) % n, n, n + idxs[i], (1usize << 63) + idxs[i], usize::MAX];
+        cands.extend_from_slice(&WIDTHS);
         if k > 1 {
             cands.push(idxs[(i + 1) % k]);
         }
@@ -528,7 +587,7 @@ fn all_muts(idxs: &[usize], lens: &[usize], depth: usize, n: usize) -> Vec<Strin
             }
         }
     }
-    for d in [depth.wrapping_sub(1), depth + 1, 0, 63, 64, 65, 255] {
+    for d in [depth.wrapping_sub(1), depth + 1, 0, 62, 63, 64, 65, 255] {
         if d != depth && d < 256 {
             v.push(format!("depth {}", d));
         }
@@ -539,6 +598,29 @@ fn all_muts(idxs: &[usize], lens: &[usize], depth: usize, n: usize) -> Vec<Strin
         }
         v.push(format!("addnode {}", r));
         v.push(format!("droprow {}", r));
+        // surplus / missing counts across the widths of counters and length prefixes
+        for c in [2usize, 255, 256, 257, 512, 255usize.saturating_sub(*l), 256 - *l.min(&255)] {
+            if c >= 1 {
+                v.push(format!("addnode {} {}", r, c));
+            }
+        }
+        if r == k % lens.len() {
+            for c in [254usize, 511, 513, 65535, 65536] {
+                v.push(format!("addnode {} {}", r, c));
+            }
+        }
+        for c in 2..=*l {
+            v.push(format!("dropnode {} {}", r, c));
+        }
+    }
+    for c in COUNTS {
+        v.push(format!("addleaf {}", c));
+    }
+    for c in [2usize, 254, 255, 256, 257, 65536] {
+        v.push(format!("addidxn {}", c));
+    }
+    for c in 2..=k {
+        v.push(format!("dropidxn {}", c));
     }
     v.push("addrow 0".into());
     v.push("addrow 1".into());
@@ -571,6 +653,7 @@ fn all_single_muts(idx: usize, depth: usize, exhaustive_idx: bool) -> Vec<String
     }
     let mut cands: Vec<usize> = if exhaustive_idx { (0..n).collect() } else { vec![idx ^ 1, idx ^ (n >> 1), (idx + 1) % n, 0, n - 1] };
     cands.extend_from_slice(&[n, n + idx, 2 * n + idx, (1usize << 63) + idx, usize::MAX, usize::MAX - n + 1 + idx]);
+    cands.extend_from_slice(&WIDTHS);
     let mut seen = BTreeSet::new();
     for c in cands {
         if c != idx && seen.insert(c) {
@@ -624,6 +707,17 @@ fn exec_new<H: HX>(t: &[&str]) -> Outcome {
                 }
                 if tree.leaves() != &leaves[..] || (1usize << tree.depth()) != n {
                     o = o.fail(format!("{}.new.shape", H::NAME), "leaves()/depth() wrong");
+                }
+                // the other public constructor, from the nodes the public builder computes
+                let nodes = winter_crypto::build_merkle_nodes::<H>(&leaves);
+                match guarded(|| MerkleTree::<H>::from_raw_parts(nodes, leaves.clone())) {
+                    Ok(Ok(t2)) => {
+                        let same = (0..n).all(|i| matches!((t2.prove(i), tree.prove(i)), (Ok(a), Ok(b)) if a == b));
+                        if t2.root() != tree.root() || !same {
+                            o = o.fail(format!("{}.from_raw_parts.differs", H::NAME), "tree from raw parts differs from MerkleTree::new");
+                        }
+                    },
+                    _ => o = o.fail(format!("{}.from_raw_parts.error", H::NAME), "from_raw_parts failed on the nodes of build_merkle_nodes"),
                 }
             }
             o
@@ -982,36 +1076,85 @@ fn exec_ser<H: HX>(t: &[&str]) -> Outcome {
         Some(op) => op,
         None => return o,
     };
-    let proof = op.proof();
-    let mut bytes = match guarded(|| proof.serialize_nodes()) {
+    let p = |s: &str| s.parse::<usize>().ok();
+    // structural mutants: what is serialized (nodes) and what deserialize is given (leaves, depth)
+    let mut nodes = op.nodes.clone();
+    let mut dl = op.leaves.clone();
+    let mut dd = op.depth;
+    match m {
+        ["none"] | ["cut", _] | ["extra"] | ["ff"] => {},
+        ["depth0"] => dd = 0,
+        ["noleaves"] => dl.clear(),
+        ["leaves", n] => match p(n) {
+            Some(n) if n <= 70000 => dl.resize(n, H::extra()),
+            _ => return Outcome::ok("bad-op"),
+        },
+        ["rows", n] => match p(n) {
+            Some(n) if n >= nodes.len() && n <= 70000 => nodes.resize(n, vec![]),
+            _ => return Outcome::ok("bad-op"),
+        },
+        ["rowlen", r, n] => match (p(r), p(n)) {
+            (Some(r), Some(n)) if r < nodes.len() && n >= nodes[r].len() && n <= 70000 => nodes[r].resize(n, H::extra()),
+            _ => return Outcome::ok("bad-op"),
+        },
+        ["droprowc"] => {
+            if nodes.pop().is_none() {
+                return Outcome::ok("bad-op");
+            }
+        },
+        ["dropnodec", r] => match p(r) {
+            Some(r) if r < nodes.len() && !nodes[r].is_empty() => {
+                nodes[r].pop();
+            },
+            _ => return Outcome::ok("bad-op"),
+        },
+        _ => return Outcome::ok("bad-op"),
+    }
+    let sp = BatchMerkleProof::<H> { leaves: op.leaves.clone(), nodes: nodes.clone(), depth: op.depth };
+    let panic_documented = nodes.len() > 255 || nodes.iter().any(|r| r.len() > 255);
+    let mut bytes = match guarded(|| sp.serialize_nodes()) {
         Ok(b) => b,
         Err(info) => {
             o.out = "ser=panic".into();
-            return o.fail(format!("{}.serialize_nodes.panic", hn), info);
+            if !panic_documented {
+                o = o.fail(format!("{}.serialize_nodes.panic", hn), info);
+            }
+            return o;
         },
     };
+    if panic_documented {
+        o = o.fail(format!("{}.serialize_nodes.no-panic", hn), "more than 255 vectors / nodes were serialized with one-byte counts");
+    }
     let full = bytes.len();
-    let exp_len = 1 + op.nodes.iter().map(|r| 1 + r.len() * H::width()).sum::<usize>();
+    let exp_len = 1 + nodes.iter().map(|r| 1 + r.len() * H::width()).sum::<usize>();
     if full != exp_len {
         o = o.fail(format!("{}.serialize_nodes.len", hn), format!("{} bytes, expected {}", full, exp_len));
     }
     let mk = m.first().copied().unwrap_or("");
     match m {
-        ["none"] => {},
         ["cut", k] => match k.parse::<usize>() {
             Ok(k) if k < full => bytes.truncate(k),
             _ => return Outcome::ok("bad-op"),
         },
         ["extra"] => bytes.push(7),
-        _ => return Outcome::ok("bad-op"),
+        ["ff"] => {
+            // the first 8 bytes of the first digest of the first vector
+            if nodes.is_empty() || nodes[0].is_empty() {
+                return Outcome::ok("bad-op");
+            }
+            for x in bytes[2..10].iter_mut() {
+                *x = 0xff;
+            }
+        },
+        _ => {},
     }
-    let leaves = op.leaves.clone();
-    let d = op.depth;
+    let leaves = dl.clone();
     let r = guarded(|| {
         let mut rd = SliceReader::new(&bytes);
-        let p = BatchMerkleProof::<H>::deserialize(&mut rd, leaves, d);
+        let p = BatchMerkleProof::<H>::deserialize(&mut rd, leaves, dd);
         (p, rd.has_more_bytes())
     });
+    let must_err = dd == 0 || dl.is_empty() || dl.len() > 255 || mk == "cut";
     match r {
         Err(info) => {
             o.out = format!("len={} de=panic", full);
@@ -1019,21 +1162,148 @@ fn exec_ser<H: HX>(t: &[&str]) -> Outcome {
         },
         Ok((Err(e), _)) => {
             o.out = format!("len={} de=err", full);
-            if mk != "cut" {
+            // changed digest bytes may or may not be a valid digest of a Rescue hasher
+            if !must_err && !(mk == "ff" && hn.starts_with("rp")) {
                 o = o.fail(format!("{}.deserialize.rejected", hn), format!("{:?}", e));
             }
         },
         Ok((Ok(p2), more)) => {
-            let same = p2.leaves == proof.leaves && p2.nodes == proof.nodes && p2.depth == proof.depth;
+            let same = p2.leaves == dl && p2.nodes == nodes && p2.depth == dd;
             o.out = format!("len={} de=ok same={} rest={}", full, if same { 1 } else { 0 }, if more { 1 } else { 0 });
-            match mk {
-                "none" if !same || more => o = o.fail(format!("{}.deserialize.roundtrip", hn), "deserialize(serialize_nodes(p)) != p"),
-                "extra" if !same || !more => o = o.fail(format!("{}.deserialize.extra", hn), "trailing byte not left unread"),
-                "cut" => o = o.fail(format!("{}.deserialize.cut.accepted", hn), "truncated node bytes were parsed"),
-                _ => {},
+            if must_err {
+                o = o.fail(format!("{}.deserialize.{}.accepted", hn, mk), "deserialize accepted what it must reject");
+            } else {
+                match mk {
+                    "extra" if !same || !more => o = o.fail(format!("{}.deserialize.extra", hn), "trailing byte not left unread"),
+                    "ff" => {
+                        if same || more {
+                            o = o.fail(format!("{}.deserialize.ff", hn), "changed digest bytes not reflected")
+                        }
+                    },
+                    "extra" => {},
+                    _ if !same || more => o = o.fail(format!("{}.deserialize.roundtrip", hn), "deserialize(serialize_nodes(p)) != p"),
+                    _ => {},
+                }
             }
         },
     }
+    o
+}
+
+/// `from_paths` on the paths `prove` produces (not on the output of `into_paths`), with malformed inputs
+fn exec_from<H: HX>(t: &[&str]) -> Outcome {
+    let (depth, seed) = match head(t) {
+        Some(x) => x,
+        None => return Outcome::ok("bad-op"),
+    };
+    let mut idxs = match t.get(2).and_then(|s| parse_idxs(s)) {
+        Some(i) => i,
+        None => return Outcome::ok("bad-op"),
+    };
+    let m = &t[3.min(t.len())..];
+    let b = match built::<H>(depth, &seed) {
+        Some(b) => b,
+        None => return Outcome::ok("bad-op"),
+    };
+    let hn = H::NAME;
+    let n = b.leaves.len();
+    let mut o = Outcome::default();
+    let mut paths: Vec<Vec<H::Digest>> = vec![];
+    for i in &idxs {
+        match guarded(|| b.tree.prove(*i)) {
+            Ok(Ok(p)) => paths.push(p),
+            _ => {
+                o.out = "prove=err".into();
+                return o;
+            },
+        }
+    }
+    let p = |s: &str| s.parse::<usize>().ok();
+    match m {
+        ["none"] => {},
+        ["droppath"] => {
+            if paths.pop().is_none() {
+                return Outcome::ok("bad-op");
+            }
+        },
+        ["addpath"] => match paths.last().cloned() {
+            Some(x) => paths.push(x),
+            None => return Outcome::ok("bad-op"),
+        },
+        ["dupidx"] => {
+            if idxs.len() < 2 {
+                return Outcome::ok("bad-op");
+            }
+            let l = idxs.len();
+            idxs[l - 1] = idxs[0];
+        },
+        ["short", k] => match p(k) {
+            Some(k) if k < paths.len() => paths[k].truncate(1),
+            _ => return Outcome::ok("bad-op"),
+        },
+        ["long", k] => match p(k) {
+            Some(k) if k < paths.len() => paths[k].push(H::extra()),
+            _ => return Outcome::ok("bad-op"),
+        },
+        ["alllen", l] => match p(l) {
+            Some(l) if l <= 600 => {
+                for q in paths.iter_mut() {
+                    q.resize(l, H::extra());
+                }
+            },
+            _ => return Outcome::ok("bad-op"),
+        },
+        ["nopaths"] => {
+            paths.clear();
+            idxs.clear();
+        },
+        ["many", c] => match (p(c), paths.first().cloned()) {
+            (Some(c), Some(x)) if c <= 600 => {
+                paths = vec![x; c];
+                idxs = (0..c).collect();
+            },
+            _ => return Outcome::ok("bad-op"),
+        },
+        _ => return Outcome::ok("bad-op"),
+    }
+    let set: BTreeSet<usize> = idxs.iter().cloned().collect();
+    let panic_documented = paths.is_empty()
+        || paths.len() > 255
+        || paths.len() != idxs.len()
+        || paths.iter().any(|q| q.len() != paths[0].len())
+        || set.len() != idxs.len()
+        || paths[0].len() < 2;
+    let mk = m.first().copied().unwrap_or("");
+    match guarded(|| BatchMerkleProof::<H>::from_paths(&paths, &idxs)) {
+        Err(info) => {
+            o.out = "from=panic".into();
+            if !panic_documented {
+                o = o.fail(format!("{}.from_paths.{}.panic", hn, mk), format!("from_paths panicked: {}", info));
+            }
+        },
+        Ok(p2) => {
+            let lens = p2.nodes.iter().map(|r| r.len().to_string()).collect::<Vec<_>>().join(".");
+            o.out = format!("from=ok lens={} d={} n={} h={}", lens, p2.depth, p2.leaves.len(), Opening::<H>::checksum(&p2.leaves, &p2.nodes));
+            if panic_documented {
+                o = o.fail(format!("{}.from_paths.{}.no-panic", hn, mk), "a documented precondition of from_paths was not enforced");
+            }
+            if mk == "none" {
+                let root = *b.tree.root();
+                match guarded(|| b.tree.prove_batch(&idxs)) {
+                    Ok(Ok(p1)) => {
+                        if p1.leaves != p2.leaves || p1.nodes != p2.nodes || p1.depth != p2.depth {
+                            o = o.fail(format!("{}.from_paths.differs", hn), "from_paths(prove paths) is not the opening prove_batch produces");
+                        }
+                    },
+                    _ => o = o.fail(format!("{}.prove_batch.error", hn), "prove_batch failed on valid positions"),
+                }
+                if !matches!(guarded(|| MerkleTree::<H>::verify_batch(&root, &idxs, &p2)), Ok(Ok(()))) {
+                    o = o.fail(format!("{}.from_paths.not-verifying", hn), "the opening compressed from the single paths does not verify");
+                }
+            }
+        },
+    }
+    let _ = n;
     o
 }
 
@@ -1106,6 +1376,7 @@ fn exec_h<H: HX>(op: &str, t: &[&str]) -> Outcome {
         "paths" => exec_paths::<H>(t),
         "ser" => exec_ser::<H>(t),
         "tree" => exec_tree::<H>(t),
+        "from" => exec_from::<H>(t),
         _ => Outcome::ok("bad-op"),
     }
 }
@@ -1234,6 +1505,26 @@ impl P {
                                 let full = 1 + lens.iter().map(|l| 1 + l * 8).sum::<usize>();
                                 for c in 0..full.min(12) {
                                     emit(format!("ser {} {} {} {} cut {}", h, depth, seed, is, c));
+                                }
+                            }
+                            if depth <= 3 && (toy || hi == 1 || hi == 4 || thorough) && (mask % 8 == 1 || depth <= 2) {
+                                for sm in ["ff", "depth0", "noleaves", "leaves 255", "leaves 256", "leaves 257", "rows 255", "rows 256", "rows 257",
+                                    "rowlen 0 254", "rowlen 0 255", "rowlen 0 256", "droprowc", "dropnodec 0"]
+                                {
+                                    emit(format!("ser {} {} {} {} {}", h, depth, seed, is, sm));
+                                }
+                            }
+                        }
+                        // from_paths on the single paths, and its documented preconditions
+                        if depth <= 3 || (toy && mask % 8 == 3) || thorough {
+                            if oi == 0 || toy {
+                                emit(format!("from {} {} {} {} none", h, depth, seed, is));
+                            }
+                            if oi == 0 && depth <= 3 && (toy || hi == 1 || hi == 4) && (mask % 4 == 1 || depth <= 2) {
+                                for fm in ["droppath", "addpath", "dupidx", "short 0", "long 0", "alllen 0", "alllen 1", "alllen 2", "alllen 3",
+                                    "alllen 256", "alllen 257", "alllen 258", "nopaths", "many 255", "many 256", "many 257"]
+                                {
+                                    emit(format!("from {} {} {} {} {}", h, depth, seed, is, fm));
                                 }
                             }
                         }
@@ -1385,6 +1676,26 @@ impl P {
                         emit(format!("batch {} {} {} {} none", h, depth, seed, fmt_idxs(&idxs)));
                         emit(format!("batch {} {} {} {} addidx {}", h, depth, seed, fmt_idxs(&idxs), nl - 1));
                         emit(format!("paths {} {} {} {} addidx {}", h, depth, seed, fmt_idxs(&idxs), nl - 1));
+                        let is255 = fmt_idxs(&idxs);
+                        for m in ["addidxn 1", "addidxn 2", "addidxn 257", "addleaf 1", "addleaf 2", "addleaf 256", "dropidxn 254", "addnode 0 255",
+                            "addnode 0 256", "addnode 254 256", "addnode 0 65536"]
+                        {
+                            emit(format!("batch {} {} {} {} {}", h, depth, seed, is255, m));
+                        }
+                        emit(format!("from {} {} {} {} none", h, depth, seed, is255));
+                        emit(format!("ser {} {} {} {} none", h, depth, seed, is255));
+                        emit(format!("ser {} {} {} {} rows 256", h, depth, seed, is255));
+                        let idxs: Vec<usize> = (0..257).collect();
+                        emit(format!("batch {} {} {} {} none", h, depth, seed, fmt_idxs(&idxs)));
+                        emit(format!("from {} {} {} 0 many 257", h, depth, seed));
+                        // positions around one-byte / two-byte widths inside the tree
+                        for v in [254usize, 255, 256, 257, nl - 1] {
+                            if v < nl {
+                                emit(format!("batch {} {} {} {},{} none", h, depth, seed, v, v ^ 1));
+                                emit(format!("batch {} {} {} 0,{} idx 1 {}", h, depth, seed, v, (v + 256) % nl));
+                                emit(format!("single {} {} {} {} none", h, depth, seed, v));
+                            }
+                        }
                     }
                 }
             }
@@ -1468,7 +1779,9 @@ impl Prop for P {
          positions; swapped order) mutations, every single path with every element/position/length mutation, sampled trees of depth 5..12 \
          with clustered and scattered position sets of 1..255 positions; leaf patterns for every tree size (all-equal, every run of equal \
          leaves at even and odd starts, alternating, interleaved pairs, one distinct leaf, equal halves, leaves equal to internal nodes): root, \
-         every prove path and the batch openings of all subsets against the naive recursive hash; over a toy 64-bit hasher (compared with the \
+         every prove path and the batch openings of all subsets against the naive recursive hash; surplus / missing counts 1, 2, 254..257, 511..513, \
+         65535, 65536 of nodes, leaves and positions, positions around 2^8/2^16/2^32/2^63, depths 62..65, 255/256/257 positions, rows and \
+         row lengths in serialize_nodes/deserialize, from_paths on the single prove paths with every documented precondition violated; over a toy 64-bit hasher (compared with the \
          Lean model) and the six real hashers (oracle only); a case is non-trivial when it is a distinct op line that is not answered bad-op"
     }
     fn nontrivial(&self, _line: &str, out: &str) -> bool {
